@@ -57,84 +57,44 @@ theorem sites_all_ok : CJ.Gen.logSites.all Site.ok = true := by
 theorem sites_no_addr : ∀ s ∈ CJ.Gen.logSites, s.ok = true :=
   List.all_eq_true.mp sites_all_ok
 
-theorem arg_ok_no_client (env : Env) (hok : env.Ok) (a : Arg) (h : a.ok = true) :
-    noClient (renderArg env a) = true := by
-  cases a with
-  | lit => rfl
-  | num => rfl
-  | genErr => exact noClient_of_noAddr _ (generalizedText_noAddr env.app env.err)
-  | rawErr o =>
-    simp only [Arg.ok, List.contains_iff_mem] at h
-    exact hok.raw_ok o h
-  | typeOf s => rfl
-  | expr s =>
-    simp only [Arg.ok] at h
-    cases hl : lookupRole s exprRoles with
-    | none => simp [hl] at h
-    | some r =>
-      apply hok.expr_ok s r hl
-      intro hr
-      subst hr
-      simp [hl] at h
-
 /-- **Semantic reading of the table**: in every environment that respects the reviewed tables (listed
 origins return errors without client addresses, listed non-client expressions render no client address)
 and for every error value handed to `generalizeErr`, what an emitted, non-exempt call site prints
 contains no client address. -/
 theorem site_render_no_client (s : Site) (hs : s ∈ CJ.Gen.logSites)
     (hem : s.level.emittedAtDefault = true) (hex : exemptFormats.contains s.format = false)
-    (env : Env) (hok : env.Ok) : noClient (renderSite env s) = true := by
-  have h := sites_no_addr s hs
-  simp only [Site.ok, hem, hex, Bool.not_true, Bool.false_or, List.all_eq_true] at h
-  unfold renderSite
-  have : ∀ (l : List Arg), (∀ a ∈ l, a.ok = true) → noClient (l.flatMap (renderArg env)) = true := by
-    intro l
-    induction l with
-    | nil => intro _; rfl
-    | cons a l ih =>
-      intro hl
-      rw [List.flatMap_cons, noClient_append, Bool.and_eq_true]
-      exact ⟨arg_ok_no_client env hok a (hl a (by simp)), ih (fun x hx => hl x (by simp [hx]))⟩
-  exact this s.args h
+    (env : Env) (hok : env.Ok) : noClient (renderSite env s) = true :=
+  site_ok_noClient s (sites_no_addr s hs) hem hex env hok
 
 /-- a `SetDeadline` failure as package net builds it (`OpError{Op: "set", Source: nil, Addr: laddr}`)
 names the local address only: logging it unchanged shows no client address -/
 theorem deadline_error_no_client (net : String) (local_ : Addr) (cause : Err)
     (hl : local_.role ≠ .client) (hc : noClient cause.text = true) :
-    noClient (deadlineError net local_ cause).text = true := by
-  have hl' : (local_.role != Role.client) = true := by simpa using hl
-  simp only [deadlineError, Err.text, Option.isSome_none, Bool.false_eq_true, if_false]
-  split <;> simp [noClient_append, noClient_cons, Tok.notClient, hl', hc]
+    noClient (deadlineError net local_ cause).text = true :=
+  deadlineError_noClient net local_ cause hl hc
 
 /-! ### connection description, tunnel summary, registration digest -/
 
 /-- **The flow description uses the placeholder** unless client-address logging is switched on -/
 theorem flow_description_placeholder (client phantom : Addr) (hp : phantom.role ≠ .client) :
-    noClient (flowDescription false client phantom) = true := by
-  have : (phantom.role != Role.client) = true := by simpa using hp
-  simp [flowDescription, noClient, Tok.notClient, this]
+    noClient (flowDescription false client phantom) = true :=
+  flowDescription_placeholder client phantom hp
 
 /-- … and with the switch on it does print the client (the placeholder is not vacuous) -/
 theorem flow_description_with_logging (client phantom : Addr) (hc : client.role = .client) :
-    noClient (flowDescription true client phantom) = false := by
-  simp [flowDescription, noClient, Tok.notClient, hc]
+    noClient (flowDescription true client phantom) = false :=
+  flowDescription_logging client phantom hc
 
 /-- **The tunnel summary** (`proxy closed {…}`) holds no client address, whatever errors were recorded
 for the dial, the covert side and the client side -/
 theorem tunnel_summary_no_client (t : Tunnel) (hp : t.phantom.role ≠ .client) :
-    noClient (tunnelSummary t) = true := by
-  have hp' : (t.phantom.role != Role.client) = true := by simpa using hp
-  have h1 := noClient_of_noAddr _ (statText_noAddr t.dialErr)
-  have h2 := noClient_of_noAddr _ (statText_noAddr t.covertErr)
-  have h3 := noClient_of_noAddr _ (statText_noAddr t.clientErr)
-  simp [tunnelSummary, noClient_append, noClient_cons, Tok.notClient, h1, h2, h3, hp']
+    noClient (tunnelSummary t) = true :=
+  tunnelSummary_noClient t hp
 
 /-- **Registration digest, expiry record and the line that drops a registration omit the registrant** -/
 theorem digest_omits_registrant (r : RegInfo) (hp : r.phantom.role ≠ .client) (hc : r.covert.role ≠ .client) :
-    noClient (regDigest r) = true ∧ noClient (expireRecord r) = true ∧ noClient (droppingRegLine r) = true := by
-  have hp' : (r.phantom.role != Role.client) = true := by simpa using hp
-  have hc' : (r.covert.role != Role.client) = true := by simpa using hc
-  simp [regDigest, expireRecord, droppingRegLine, noClient, Tok.notClient, hp', hc']
+    noClient (regDigest r) = true ∧ noClient (expireRecord r) = true ∧ noClient (droppingRegLine r) = true :=
+  digests_noClient r hp hc
 
 /-! ### non-vacuity -/
 
